@@ -2617,9 +2617,12 @@ class SlicedMemoryIO(object):
         if n_bytes < 0:
             n_bytes = self._end_address - self.address
 
-        # Determine how far to read, then read nothing beyond that point.
-        if self.address + n_bytes > self._end_address:
-            new_n_bytes = self._end_address - self.address
+        # Determine how far to read, then read nothing beyond that point (and
+        # nothing at all from a position outside the region).
+        max_n_bytes = (max(0, self._end_address - self.address)
+                       if self._offset >= 0 else 0)
+        if n_bytes > max_n_bytes:
+            new_n_bytes = max_n_bytes
             warnings.warn("read truncated from {} to {} bytes".format(
                 n_bytes, new_n_bytes), TruncationWarning, stacklevel=3)
             n_bytes = new_n_bytes
@@ -2656,8 +2659,12 @@ class SlicedMemoryIO(object):
         int
             Number of bytes written.
         """
-        if self.address + len(bytes) > self._end_address:
-            n_bytes = self._end_address - self.address
+        # Write nothing beyond the end of the region (and nothing at all at a
+        # position outside the region).
+        max_n_bytes = (max(0, self._end_address - self.address)
+                       if self._offset >= 0 else 0)
+        if len(bytes) > max_n_bytes:
+            n_bytes = max_n_bytes
 
             warnings.warn("write truncated from {} to {} bytes".format(
                 len(bytes), n_bytes), TruncationWarning, stacklevel=3)
